@@ -99,7 +99,17 @@ def _setexpr_corpus():
     return out
 
 
-CORPUS = _alias_corpus() + _numeq_corpus() + _setexpr_corpus() + [  # hand-written trees for shapes the generator reaches rarely; each is one program
+def _emptyrep_corpus():
+    """an empty array times any count is the empty array (the 512 cap is on the LENGTH of the result)"""
+    I = lambda k: ("i", k)
+    out = []
+    for n in (0, 1, 512, 513, 600, 100000):
+        out.append(("seq", [("arr", [("call", ("attr", ("bin", "mul", ("arr", []), I(n)), "len"), []), ("bin", "mul", ("arr", []), I(n)), ("bin", "mul", I(n), ("arr", []))])]))
+        out.append(("seq", [("asg", "ar1", ("arr", [I(1)])), ("call", ("attr", ("var", "ar1"), "pop"), []), ("bin", "mul", ("var", "ar1"), I(n))]))
+    return out
+
+
+CORPUS = _alias_corpus() + _numeq_corpus() + _setexpr_corpus() + _emptyrep_corpus() + [  # hand-written trees for shapes the generator reaches rarely; each is one program
     ("seq", [("asg", "x1", ("i", 5)), ("aset", "x1", "k", ("i", 1)), ]),
     ("seq", [("i", 7), ("asg", "dc1", ("dict", [])), ("aset", "dc1", "k", ("i", 3))]),
     ("seq", [("asg", "ar1", ("arr", [("i", 1), ("i", 2)])), ("asg", "ar2", ("var", "ar1")), ("iset", ("var", "ar1"), ("i", 0), ("i", 9)), ("var", "ar2")]),
